@@ -161,3 +161,25 @@ def ob_c(ob):
                 raise HarnessError("pack roundtrip counterexample did not reproduce")
             else:
                 ob.discharged("c:layout %s/%s" % (nheavy, nH))
+
+
+# ---- shared obligation: batch-mate independence of excited states in a mixed batch requires that no molecule gets guess vectors on padded occupied-virtual pairs ----
+from . import C16 as _C16_mod  # noqa: E402
+
+
+@obligation(PID, "e", title="[shared with C16.d] " + [e for e in __import__("engine.ob", fromlist=["REGISTRY"]).REGISTRY["C16"] if e[1] is _C16_mod.ob_d][0][3])
+def ob_e_shared(ob):
+    """batch-mate independence of excited states in a mixed batch requires that no molecule gets guess vectors on padded occupied-virtual pairs"""
+    ob.note("this obligation is the one registered as C16.d; it is also decided here because batch-mate independence of excited states in a mixed batch requires that no molecule gets guess vectors on padded occupied-virtual pairs")
+    _C16_mod.ob_d(ob)
+
+
+# ---- shared obligation: the temperature and kinetic energy of a molecule must not depend on the padding of its batch row ----
+from . import C08 as _C08_mod  # noqa: E402
+
+
+@obligation(PID, "f", title="[shared with C08.d] " + [e for e in __import__("engine.ob", fromlist=["REGISTRY"]).REGISTRY["C08"] if e[1] is _C08_mod.ob_d][0][3])
+def ob_f_shared(ob):
+    """the temperature and kinetic energy of a molecule must not depend on the padding of its batch row"""
+    ob.note("this obligation is the one registered as C08.d; it is also decided here because the temperature and kinetic energy of a molecule must not depend on the padding of its batch row")
+    _C08_mod.ob_d(ob)
